@@ -2,11 +2,13 @@
     bool, option, unit, prod, list, sumbool map to OCaml's; N/positive/nat/Z stay extracted datatypes).
     Separate extraction: one OCaml module per Coq module, so model names never clash. *)
 From Coq Require Import ExtrOcamlBasic NArith List.
-From XV Require Import Conc.Lts Conc.Ev Model.ChaseDefs Model.SeqlockDefs Model.LeftRightDefs Model.VyukovDefs Model.MsqDefs.
+From XV Require Import Conc.Lts Conc.Ev Model.ChaseDefs Model.SeqlockDefs Model.LeftRightDefs Model.VyukovDefs Model.MsqDefs Model.TblDefs Model.HmlDefs.
 Extraction Language OCaml.
 Separate Extraction Lts.run N.of_nat N.to_nat
   ChaseDefs.step ChaseDefs.init
   SeqlockDefs.step SeqlockDefs.init SeqlockDefs.pat_words SeqlockDefs.pat_func SeqlockDefs.pat_find
   LeftRightDefs.step LeftRightDefs.init
   VyukovDefs.step VyukovDefs.init
-  MsqDefs.step MsqDefs.init.
+  MsqDefs.step MsqDefs.init
+  TblDefs.step TblDefs.init
+  HmlDefs.step HmlDefs.init.
